@@ -48,9 +48,17 @@ def doc(body, defs=""):
 # -- S1 -------------------------------------------------------------------
 
 
+# transforms close to the identity (every entry within 0.1 of it): small, but not nothing - a 100-unit picture moves by several units
+TF_NEAR = ["scale(1.06)", "rotate(4)", "matrix(1.03 .02 -.04 .97 .05 -.08)", "translate(.08,-.05) scale(.95)", "skewX(3)"]
+
+
 def s1_docs(tier):
     for name, tpl in SHAPES1.items():
         yield ("S1", name, ""), doc(tpl.format(t=""))
+        for a in TF_NEAR:
+            yield ("S1", name, a), doc(tpl.format(t=f' transform="{a}"'))
+            yield ("S1", name, "g:" + a), doc(f'<g transform="{a}">' + tpl.format(t="") + "</g>")
+            yield ("S1", name, "use:" + a), doc(f'<use xlink:href="#t" transform="{a}"/>', defs=tpl.format(t=' id="t"'))
         for a in TF:
             yield ("S1", name, a), doc(tpl.format(t=f' transform="{a}"'))
         for a, b in itertools.product(TF, repeat=2):
@@ -265,7 +273,7 @@ def cases(tier, seed):
 
 def run(run):
     run.rule = (
-        "E2 + R3. S1: 12 shapes (7 basic shapes, 5 path variants) x transform lists of length 0-2 over 8 transforms; S2: ancestor chains of length <= 2 (quick) / 3 (+ depth 4 g-only) "
+        "E2 + R3. S1: 12 shapes (7 basic shapes, 5 path variants) x transform lists of length 0-2 over 8 transforms, and 5 near-identity transforms (own, on a group, on a use); S2: ancestor chains of length <= 2 (quick) / 3 (+ depth 4 g-only) "
         "over 11 level kinds {g, g+transform x4, use x/y | transform | both, nested svg plain | viewBox meet | viewBox slice} x 3 leaves x own transform; S3: all arrangements "
         "of 2 (3) items from 8 (shapes, use instances of shared targets, groups) with display:none on each item, hidden use targets; S4: nested svg viewports: 3 boxes x 5 viewBoxes "
         "(incl. numerically equal to the element's own x y width height) x 20 preserveAspectRatio x overflow {absent, hidden, visible}, two-level nesting and SVG 2 transform (thorough); "
